@@ -146,4 +146,15 @@ PROPS = {
         "rule": "One evaluation = one generated object checked against its set-theoretic definition: (cnf) Cnf::new keeps each clause as the given literal set and num_vars = max label + 1; eval on every assignment, condition(lit) for every literal (compared with the cofactor of the truth table), brute-force wmc in the real and 64-bit-field semirings against the exact sum over models (incl. the empty formula and formulas with empty clauses, regime edge), is_sat_partial for random partial models (implies 'every extension satisfies'; equivalence on CNFs without tautological clauses, S7); (models) PartialModel and VarSet driven through random set/unset/insert/remove histories against HashMap/HashSet models, all accessors, iterators, constructors and set operations compared after every step; (literals) label/polarity round trip for labels up to 2^63-1; (hasher) CnfHasher driven through random push/decide/pop histories, hash(m) for random models m extending the decisions that falsify no clause: a map residual-family -> hash and a map hash -> residual-family must both stay functional (the second only while the product of all occurrence primes is < 2^128, S5). Non-trivial = CNF neither constant nor literal (cnf regime) / every history (others); distinct = distinct inputs.",
         "assumptions": ASSUME_COMMON + ["S5: residuals are compared as families indexed by clause position", "S7: is_sat_partial is syntactic"],
     },
+    "C10": {
+        "profiles": {"quick": ["mon"], "thorough": ["mon", "monrel"]},
+        "scale": {"quick": 1, "thorough": 30},
+        "floors": {
+            "quick": {"queries": 30000, "repeated_queries": 300, "fresh_copy_queries": 8000},
+            "thorough": {"queries": 800000},
+        },
+        "sanitizers": ["miri_queries"],
+        "rule": "One evaluation = one pool of diagrams sharing nodes (built by a random operation history in one long-lived builder) on which 20-70 queries of different scratch types are interleaved: unsmoothed_wmc in 8 semiring instances, evaluate, count_nodes, semantic_hash over 3 primes, cached_semantic_hash (one prime per builder, S3), and for BDDs marginal_map, meu, bb::<Real>, bb::<ExpectedUtility>, user bdd_fold with usize and i64, Fold::mut_fold, smooth, condition, condition_model, exists; operands are chosen as f, !f, recent results and the previous operand again. Checks: (a) a repeated (diagram, query) returns the first answer (also asked twice in a row); (b) every 3rd query (every query in thorough) is asked once on a FRESH builder that replays the construction history and must give the identical answer (floats compared bit-exactly through their shortest round-trip print, diagrams through their isomorphism class); (c) after EVERY public call a scan over all nodes reachable from all pool roots asserts is_scratch_cleared(). BDD (both caches), compressed SDD and top-down decision-DNNF pools. Run in the `mon` profile so rsdd's own debug assertions on scratch state are live. Every pool is non-trivial; distinct = distinct (history, queries) inputs.",
+        "assumptions": ASSUME_COMMON + ["S3: a builder's nodes are only ever cached-hashed with one prime and one weight map"],
+    },
 }
